@@ -32,6 +32,8 @@ ASSUMPTIONS = ["well-formed votes: at least one class, classes non-empty, no alt
                "basic.py statistics only on states with at least one order (they raise / disagree on the empty "
                "profile, see C02_type)"]
 TIMEOUT_S = 60.0
+THEOREMS_FOR_OP = {"c02.history": "C02_reachable, C02_views, C02_type, C02_sanity, C02_no_raise (observables after each "
+                                   "operation); C02_regroup (final observables of the regrouped twin)"}
 CHUNK = 25
 
 DT = {"soc": 0, "soi": 1, "toc": 2, "toi": 3, None: 4}
